@@ -852,3 +852,57 @@ Section Headlines.
     - rewrite Hct. reflexivity.
   Qed.
 End Headlines.
+
+(* ------------------------------------------------------------------------------------------ *)
+(* observations at the edges *)
+
+Definition max_u64 : N := 18446744073709551615.    (* query.MaxLimit = math.MaxUint64 *)
+
+(* OBSERVATION 1 (end+1 wraps to 0).  With limit = MaxUint64 ("MaxLimit is the maximum limit the
+   paginate function can handle") and offset 0, end = 2^64-1 and end+1 = 0, so "numHits == end+1"
+   holds as soon as the first visited item does NOT match: the loop breaks there (CountTotal unset),
+   the page is empty and NextKey is the first key of the store, although matching items exist.
+   A client paging by offset then stops at the second request (offset+limit wrapped) with nothing;
+   a client paging by key recovers, because key mode does no arithmetic on limit. *)
+Lemma obs_limit_wrap :
+  exists (items : list (N * N)) (flt : N -> N -> bool) (limit : N),
+    keys_sorted items /\ 1 <= limit /\ limit < two64N /\
+    filter (fun kv => flt (fst kv) (snd kv)) items = [(2, 1); (3, 1)] /\
+    filtered_paginate items flt (mkreq KeyNil 0 limit false false)
+      = Ok {| res_items := []; res_next_key := Some 1; res_total := 0 |} /\
+    all_pages_by_offset (length items + 1) items flt limit = [] /\
+    all_pages_by_key (length items + 1) items flt limit = [(2, 1); (3, 1)].
+Proof.
+  exists [(1, 0); (2, 1); (3, 1)], (fun _ v => v =? 1), max_u64.
+  split; [|split; [|split; [|split; [|split; [|split]]]]].
+  - unfold keys_sorted. cbn [map fst]. repeat constructor.
+  - vm_compute. discriminate.
+  - vm_compute. reflexivity.
+  - vm_compute. reflexivity.
+  - vm_compute. reflexivity.
+  - vm_compute. reflexivity.
+  - vm_compute. reflexivity.
+Qed.
+
+(* OBSERVATION 2 (offset+limit wraps).  offset = 2^64-1, limit = 2: end = 1, nothing is ever
+   accumulated, NextKey is the key of the 2nd matching item. *)
+Lemma obs_offset_wrap :
+  exists (items : list (N * N)) (flt : N -> N -> bool),
+    keys_sorted items /\
+    filtered_paginate items flt (mkreq KeyNil max_u64 2 false false)
+      = Ok {| res_items := []; res_next_key := Some 3; res_total := 0 |}.
+Proof.
+  exists [(1, 0); (2, 1); (3, 1)], (fun _ v => v =? 1). split.
+  - unfold keys_sorted. cbn [map fst]. repeat constructor.
+  - vm_compute. reflexivity.
+Qed.
+
+(* OBSERVATION 3 (reverse + key = the greatest stored key panics inside getIterator), for every
+   non-empty store, filter, limit and count_total. *)
+Lemma reverse_last_key_panics : forall {V} (p : list (N * V)) (x : N * V) flt l ct,
+  keys_sorted (p ++ [x]) ->
+  filtered_paginate (p ++ [x]) flt (mkreq (KeyAt (fst x)) 0 l ct true) = Panic pg_panic_iter.
+Proof.
+  intros V p x flt l ct Hs. unfold filtered_paginate, mkreq. cbn [pr_key pr_offset pr_reverse].
+  cbn [N.ltb N.compare andb]. unfold iter_seq. rewrite (drop_lt_at p x [] Hs). reflexivity.
+Qed.
